@@ -206,7 +206,7 @@ def _patches_for(prop):
       patch = os.path.join(sd, name, 'patch.diff')
       if os.path.exists(meta) and os.path.exists(patch):
         m = json.load(open(meta))
-        if m.get('property') == prop:
+        if m.get('property') == prop or prop in m.get('also_checked_by', []):
           res.append((f'seeded/{name}', patch))
   return res
 
